@@ -202,6 +202,8 @@ func (c *Characteristic) convert(v interface{}) interface{} {
 		return int(to.Uint64(v))
 	case FormatBool:
 		return to.Bool(v)
+	case FormatString, FormatTLV8, FormatData:
+		return to.String(v)
 	default:
 		return v
 	}
